@@ -30,6 +30,12 @@ pub trait EvictionPolicy: Send + Sync {
     /// Called once per revision during `reset_for_new_revision`.
     /// The callback `cb` should be invoked for each item to evict.
     fn for_each_evicted(&mut self, cb: impl FnMut(Id));
+
+    /// Verification hook: textual dump of the policy state.
+    #[cfg(salsa_rs_salsa_verif)]
+    fn verif_dump(&self) -> String {
+        String::new()
+    }
 }
 
 /// Marker trait for eviction policies that have a configurable capacity.
